@@ -249,3 +249,8 @@ SUBS = [
     Sub("mergesort", check_merge, strategy=merge_case, quick=3000, thorough=60000),
 ]
 KNOWN = {}
+
+# second use of one view object after its sources were edited (shared sub-check, see pv/reuse.py)
+from pv import reuse  # noqa: E402
+SUBS.append(reuse.sub(ID))
+RULE += reuse.RULE
